@@ -44,7 +44,7 @@ def h_exact(ctx, cfg):
     try:
         with sym.concrete():
             R = S.merge(*sigs)
-    except S.IncompatibleSignatures:
+    except ValueError:          # (which ValueError subclass is C15's business)
         with sym.notrace():
             names = all_names(shapes)
             ctx.count('raised')
